@@ -23,7 +23,8 @@ ASSUMPTIONS = [
     "number of keystones * max table entry < 2^31; lookup table non-empty",
     "both views start at the same first keystone and share the config object (asserted by the code)",
     "end-to-end stream: ALT chains protected by VBK only (ATVs); VBK chains protected by BTC (VTBs) are not generated; "
-    "regtest parameters (EnableTimeAdjustment = false, so the time-adjustment branch of getKeystoneContext is not reached); "
+    "regtest parameters; time adjustment is switched on in the harness by a subclass of the regtest VBK parameters; the "
+    "mirror of the miner's block timestamps (BASE + number of mining operations) is checked against the registry on every pair; "
     "the publication view of a chain is computed from the registry-level description by props/_score.py (not proved)",
 ]
 HARNESSES = [("h_score", "rel"), ("h_score_e2e", "rel")]
@@ -55,7 +56,9 @@ META = {
             "to the extracted impl/spec/outer_cmp; AltBlockTree::comparePopScore must return that sign; role swap "
             "on a second instance, zero without keystone crossing, invalidated candidate and candidate forking "
             "below a finalized block are direct oracles. Not generated: VBK forks resolved by BTC publications "
-            "(VTBs), time adjustment. No axioms.",
+            "(VTBs). About half of the duels run with EnableTimeAdjustment()==true (SP parameters subclassed in the "
+            "harness) and explicit ALT timestamps around the VBK ones; getKeystoneContext incl. the adjustment is the "
+            "extracted Coq ktx (proved = minimum of the adjusted heights, monotone, order independent). No axioms.",
     "technique": "Coq proof (refinement invariant, induction over the keystone list; lia) + source-generated leaf "
                  "functions and parameters + extraction-based differential correspondence with direct oracles "
                  "(spec sign, antisymmetry, zero, keystone maths) and exhaustive small-scope sweeps",
@@ -469,6 +472,8 @@ def run_e2e(ctx, model, e2e_harness, pairs, tag):
     cov["atvs"] = sum(P.stats.get("atvs", 0) for P in pairs)
     cov["losing_fork_blocks_of_proof"] = sum(P.stats.get("losing_fork_bops", 0) for P in pairs)
     cov["keystones_crossed_histogram"] = {str(k): sum(1 for P in pairs for v in (P.viewA, P.viewB) if len(v) == k) for k in range(6)}
+    cov["time_adjustment_pairs"] = sum(1 for P in pairs if P.stats.get("ta"))
+    cov["time_adjusted_publications"] = sum(P.stats.get("adjusted", 0) for P in pairs)
     cov["unpublished_keystones"] = sum(1 for P in pairs for v in (P.viewA, P.viewB) for h in v if h is None)
     for rec in judged[:2]:
         P = pairs[rec["i"]]
